@@ -212,12 +212,18 @@ def w_cases(pid, tier, seed, job):
         with R.TempImage(text.encode("ascii"), "d.cue", {"d.bin": binb}) as path:
             img = R.open_image(path)
             kind = type(img).__name__
-            wins = [[t.title, t._data_stream.offset, t._data_stream.end_of_file, t.num_audio_samples] for t in getattr(img, "tracks", [])]
+            try:
+                wins = [[t.title, F.private(t, "_data_stream").offset, F.private(t, "_data_stream").end_of_file, t.num_audio_samples] for t in getattr(img, "tracks", [])]
+            except F.Unavailable as e:
+                wins = None
+                ctx.note("C03: relation cdda_windows skipped, internal name not available: %s" % e)
             try:
                 img.tracks[0]._data_stream.substream.close()
             except Exception:
                 pass
-            if mres[0] == "ok":
+            if wins is None:
+                pass
+            elif mres[0] == "ok":
                 route, mw = mres[1]
                 mwins = [["".join(map(chr, w[0][1])) if w[0][0] == 1 else "Untitled Track %d" % w[1], w[2], w[3], w[4]] for w in mw]
                 ctx.agree("cdda_windows", case, (kind == "CompactDiskAudioImage", wins), (route == 1, mwins))
